@@ -416,10 +416,12 @@ class ACEGenerator(ACEProcess):
         while i < numlines:
             result = {'SENT': lines[i].strip()}
             i += 1
-            if show_tree and lines[i].startswith('DTREE = '):
+            if (show_tree and i < numlines
+                    and lines[i].startswith('DTREE = ')):
                 result['derivation'] = lines[i][8:].strip()
                 i += 1
-            if show_mrs and lines[i].startswith('MRS = '):
+            if (show_mrs and i < numlines
+                    and lines[i].startswith('MRS = ')):
                 result['mrs'] = lines[i][6:].strip()
                 i += 1
             results.append(result)
